@@ -432,8 +432,10 @@ def l3(ctx):
     for c in t.calls:
         if c.callee and c.callee.name in ("starts_with", "strip_prefix", "split_once", "eq") and len(c.args) > 1 and c.args[1]["k"] == "const" and "text" in c.args[1]:
             tok_lits.add(re.sub(r"^['\"]|['\"]$", "", c.args[1]["text"]))
-    for cs_ in char_table_helpers(crate, t).values():
-        tok_lits |= cs_              # single-character delimiters classified by a table helper
+    raws = [tk[0]] + [crate.bodies[c.callee.target] for c in tk[0].all_calls() if c.callee and c.callee.target in crate.bodies and (crate.bodies[c.callee.target].file or "").endswith("parse.rs")]
+    for b_ in [t] + raws:            # (the view has the small helpers inlined: look for the table helper from the raw bodies as well)
+        for cs_ in char_table_helpers(crate, b_).values():
+            tok_lits |= cs_              # single-character delimiters classified by a table helper
     ctx.check(tok_lits >= {"(", ")", "[", "]", ":=", "?", "$"}, "tokenizer-literals", "the tokenizer dispatches on %s" % sorted(tok_lits), "the tokenizer no longer dispatches on all of ( ) [ ] := ? $ (has %s)" % sorted(tok_lits), where_of(t))
     mp = [b for b in crate.by_name.get("parse", []) if "MultiPattern" in (b.impl_self or "") and (b.file or "").endswith("parse.rs")]
     mp_lits = set()
